@@ -13,6 +13,8 @@ period for lifetimes 0..130 x jitter 5..10 and the real `touch` payload against 
 (view, its resourceVersion, the object and its resourceVersion when the PATCH arrived): applied / refused, resulting status, toggle.
 Multi-operator simulations: 2-4 REAL `kopf.operator()`s on one fake cluster with a ClusterKopfPeering,
 scripted starts / graceful stops / kills / restarts, foreign records, per-operator delivery delays.
+12% of the histories make ONE peering PATCH of one operator (n-th keep-alive / self-touch / clean / withdrawal) 1/16..3 s slower on its
+way to the server than the requests around it and stop / kill that operator while it is in flight or just after (`with_slow`).
 15% of the histories carry an API FAULT at one point of the peering protocol of one operator (`with_faults`): the n-th regular
 keep-alive, the self-touch of a process_peering_event call, a clean(), the withdrawal - refused with a status the client does not
 retry, failing beyond the client's back-offs or only once, a connection error before/after the write, a timeout.
@@ -50,7 +52,9 @@ TIE = ("S: every call of the real process_peering_event (direct calls on generat
        "The Lean witnesses of the open findings F4 (residue), F10 are run through the driver (C13.run) and their claim compared with "
        "the replay of the same scenario on the real code. NOT tied (no trace-to-label-list correspondence of whole histories): the "
        "labels wake/wakeIssue/land/sleeping, exit, exitBegin/exitEnd, exitLost, kill, keepaliveFail (the failed keep-alive: held by the "
-       "oracle clauses C/T/X/Y on histories with injected API faults), and the ghost nextKA/Allowed; for these the "
+       "oracle clauses C/T/X/Y on histories with injected API faults), kaIssue/kaLand of the in-flight layer (the keep-alive cancelled "
+       "by the stop: held by the oracle clauses D/D2 on histories with a slow request; corpus stop_during_slow_keepalive_*), and the "
+       "ghost nextKA/Allowed; for these the "
        "simulation oracle is the only link to the code (the stop ORDER of 26a293c is held by the oracle clauses D/H and the "
        "regressions F7, F9, exit_handler_ignores_cancel)")
 LEVEL_TEXT = ("Lean theorems, STRENGTH partial. FULL (no guard): per call, all status contents: foreign_object_ignored (an event of "
@@ -71,6 +75,12 @@ LEVEL_TEXT = ("Lean theorems, STRENGTH partial. FULL (no guard): per call, all s
               "swallowed_keepalive_two_active_witness (lifetime 60: the record expires at 60 s, the lower one resumes, both running "
               "and active, the top one without a record - and what the code's step does on the same labels); "
               "failstop_withdraws_before_handling_stops_witness (finding F11: the record goes before the handling has stopped). "
+              "FULL (seeded change C13f was the negation; layer Model/C13_KaFlight.lean over `step`: the regular keep-alive as a request "
+              "in flight, kaIssue .. kaLand): withdrawn_stays_keepalive_in_flight (the stop of the pinger cancels the request it awaits "
+              "before the withdrawal is sent: from the withdrawal on the record never comes back, through ANY labels of anybody); the "
+              "seeded variant as a named step function (kstepShield: the request survives the stop): shielded_keepalive_returns_witness "
+              "(lifetime 60: the keep-alive sent at 55 s lands after the withdrawal, the record is back until 115 s, the lower one stays "
+              "paused, nobody is active - and that the same labels are not a run of the code's step). "
               "own_record_fresh: guard Timely only (every touch() <= B ticks, 2B < min(5, L-1) s resp. 1/2 s for L = 1, nobody writes "
               "under an operator's identity) - the guards 'old views only if benign' and 'proper exit order' are gone: views of any "
               "age, two-step stops. stale_same_verdict: an older view with the verdict of the current status sets the operator's "
@@ -100,7 +110,8 @@ THEOREMS = [("Kopf.Props.C13", "Kopf.C13." + n) for n in [
     "keepalive_period", "renewal", "renewal_lifetime_one", "own_record_fresh",
     "withdraw_on_exit", "withdrawn_stays_from", "withdrawn_stays", "selftouch_before_withdrawal",
     "failed_keepalive_stops", "failed_keepalive_withdraws", "swallowed_keepalive_two_active_witness",
-    "failstop_withdraws_before_handling_stops_witness"]]
+    "failstop_withdraws_before_handling_stops_witness",
+    "withdrawn_stays_keepalive_in_flight", "shielded_keepalive_returns_witness"]]
 RULE = ("(1) direct calls: status of 0-5 records over a small identity pool (own record in/out), priority around the own one / "
         "missing / garbled, lifetime ints incl. 0,1,negative / numeric strings / garbage / missing, lastseen placed exactly on the "
         "deadline and +-1 tick / far past / future / missing / null / unparsable / naive & Z formats, unknown keys, non-mapping "
@@ -125,7 +136,13 @@ RULE = ("(1) direct calls: status of 0-5 records over a small identity pool (own
         "before / after the server applied the write (x1, x4), a timeout (x1, x4; request_timeout 2 s); the faulted operator's "
         "lifetime from 2..60 s (half above 20 s: there one skipped renewal round outlives the record), back-offs (1, 1, 2) or "
         "(0.25, 0.5, 0.5), handlers of 0 / 0.5 / 1.5 s; the timeline is built so that the faulted request happens and its "
-        "consequences (expiry, take-over) fit in; histogram history.api_faults. Direct calls: 30% of the lastseen values in a local time; events of foreign "
+        "consequences (expiry, take-over) fit in; histogram history.api_faults. Fifth own stream (round C13f): 12% of the histories "
+        "(not those with faults) have ONE SLOW REQUEST: one peering PATCH of one operator (58% its n-th regular keep-alive, n = 2, 3, "
+        "1; 17% the self-touch of a waiting call; 8% a clean(); 17% the withdrawal) reaches the server 1/16, 1/4, 1/2, 1, 2 or 3 s later "
+        "than any other request (inside the 5 s keep-alive margin: lifetimes 8..60 s) - requests of one client then ARRIVE in another "
+        "order than they were sent -, and the operator is asked to stop while it is in flight (55%: 1/64 s after it was sent, 2/64, "
+        "half-way, one tick before it arrives), right after it has arrived (10%), killed in flight (10%), or not at all; histograms "
+        "history.slow_request, history.slow_request_delay. Direct calls: 30% of the lastseen values in a local time; events of foreign "
         "objects named 'default-2', 'default.', 'xdefault', 'defaul', 'Default', '' ...; half of the events carry a resourceVersion "
         "(the clean must name it). A case is one "
         "process_peering_event call (direct or simulated) "
@@ -144,6 +161,9 @@ TRUSTED = ["harness/sim (virtual-time loop, fake API server incl. merge-patch of
            "is aimed (keep-alive / self-touch / clean / withdrawal) is read off its payload (own record written, own record "
            "removed, others' records removed) and off whether it is issued inside a process_peering_event call; every faulted "
            "request is logged with its issue and answer time (`fault_hits`): the oracle's fault windows are built from that log",
+           "slow requests of the histories (sim_c13 `slow_requests`: the fake API's latency of that ONE request is raised at the moment "
+           "it is sent - logged then, a closed / dead session refuses it then; once sent it arrives after latency + delay whatever "
+           "its client does meanwhile, except cancel it: a cancelled request never arrives); the class of the request as for the faults",
            "the history oracle's settle window W = max delivery delay + 1 s (after a change of who is live, every operator must "
            "have reacted within W)"]
 ASSUMPTIONS = ["one virtual clock shared by all operators (no clock skew between operators)",
@@ -178,7 +198,10 @@ ASSUMPTIONS = ["one virtual clock shared by all operators (no clock skew between
                "touch() gets a 404 that is only logged, no event arrives any more and a paused operator stays paused until the object is "
                "re-created (audit N2, reproduced; recorded as an observation, not a finding - sim_c13 can do it: delete_peering/create_peering)",
                "a request that the client has CANCELLED is not applied by the server afterwards (the fake API drops it): the pinger's own "
-               "keep-alive PATCH cancelled in flight by the stop cannot land after the withdrawal (the two are sequential in one task), "
+               "keep-alive PATCH cancelled in flight by the stop cannot land after the withdrawal (the two are sequential in one task; "
+               "GENERATED since the C13f round - a stop while a slow keep-alive is in flight - and held by the oracle clauses D/D2: "
+               "whatever an operator sent before its withdrawal must not put the record back after it; Lean: "
+               "withdrawn_stays_keepalive_in_flight), "
                "and neither can a self-touch of the peering observer that was cancelled with it (`exitEnd` drops `inflight`); two requests "
                "that are both in flight are applied in either order - since 26a293c the self-touch and the withdrawal never are",
                "`wake` has no time guard in the model (it may fire before the deadline, with any lag outside Timely): resume_after_expiry "
@@ -613,6 +636,11 @@ def gen_history(rng: Any, seed: int) -> dict:
     r4 = random.Random(seed * 15485863 + 29)
     if r4.random() < FAULT_SHARE:
         sc = with_faults(r4, sc)
+    # 12% (a fifth own stream): ONE peering PATCH of one operator is slower on its way to the server than the requests around
+    # it, and the operator is stopped / killed while it is in flight or right after - see `with_slow`
+    r5 = random.Random(seed * 32452843 + 101)
+    if r5.random() < SLOW_SHARE and "faults" not in sc:
+        sc = with_slow(r5, sc)
     return sc
 
 
@@ -689,6 +717,84 @@ def with_faults(r: Any, base: dict) -> dict:
     return sc
 
 
+SLOW_SHARE = 0.12
+
+
+def with_slow(r: Any, base: dict) -> dict:
+    """A history in which ONE peering PATCH of one operator - its n-th regular keep-alive, the self-touch of a call that slept
+    to a blocker's deadline, a clean(), the withdrawal - takes 1/16 .. 3 s longer to reach the server than every other request
+    ("every delivery timing of ... keep-alives": the API applies requests in the order they ARRIVE), and (70%) that operator is
+    asked to stop - or is killed - while the request is in flight (1/64 s after it was sent, half-way, one tick before it
+    arrives) or right after it has arrived. The delay stays inside the keep-alive margin of the operator (lifetime >= 8 s: 5 s):
+    a running operator's record must stay fresh through it. Operators, priorities, peering name and configuration are the base
+    history's; the timeline is built so that the slow request happens and what follows (take-over, expiry) fits in."""
+    names = list(base["ops"])
+    ops = {nm: dict(o) for nm, o in base["ops"].items()}
+    prios = [ops[nm]["priority"] for nm in names]
+    if len(set(prios)) != len(prios):
+        for k, nm in enumerate(sorted(names, key=lambda x: ops[x]["priority"])):
+            ops[nm]["priority"] = ops[nm]["priority"] + k
+    top = max(names, key=lambda x: ops[x]["priority"])
+    lower = [x for x in names if x != top]
+    cls = r.choice(["keepalive"] * 7 + ["selftouch"] * 2 + ["clean"] + ["withdraw"] * 2)
+    who = (top if r.random() < 0.7 else r.choice(names)) if cls in ("keepalive", "withdraw") else r.choice(lower)
+    for nm in names:
+        ops[nm]["lifetime"] = r.choice([8, 12, 20, 30, 60, 60] if nm == who else [4, 8, 12, 20, 30, 60])
+    L, Ltop = ops[who]["lifetime"], ops[top]["lifetime"]
+    delay = r.choice([4 / 64, 0.25, 0.5, 0.5, 1.0, 2.0, 3.0])
+    nth = 1
+    tl: list[list] = []
+    t = 1.0
+    starts = {}
+    for nm in r.sample(names, len(names)):
+        tl.append([t, "start", nm])
+        starts[nm] = t
+        t = _dy(r, t + 1.5, t + 4.0)
+    t_all = t
+    quiet: list[tuple[float, float]] = []          # no edits of the handled object there
+    if cls == "keepalive":
+        nth = r.choice([2, 2, 2, 3, 1])
+        if nth == 1:
+            delay = min(delay, 0.5)                  # (its record is not there yet: the others cannot know it)
+            quiet.append((starts[who] - 1.0, starts[who] + 4.0))
+        t_f = starts[who] + (nth - 1) * max(1.0, L - 5.0)
+    elif cls == "withdraw":
+        t_f = _dy(r, t_all + 3.0, t_all + 20.0)
+        tl.append([t_f, "stop", who])
+    else:
+        delay = min(delay, 1.0) if cls == "clean" else delay
+        t_k = _dy(r, t_all + 3.0, t_all + 15.0)
+        tl.append([t_k, "kill", top])
+        t_f = t_k + Ltop
+    then = None
+    c = r.random()
+    if cls != "withdraw":
+        if c < 0.55 or nth == 1:
+            then = ["stop", r.choice([1 / 64, 2 / 64, delay / 2, delay - 1 / 64])]      # in flight
+        elif c < 0.65:
+            then = ["stop", delay + r.choice([1, 2, 4]) / 64]                            # it has just arrived
+        elif c < 0.75:
+            then = ["kill", r.choice([1 / 64, delay / 2])]
+    end = float(int(min(t_f + max(o["lifetime"] for o in ops.values()) + 20.0, 200.0)))
+    x = 0
+    te = _dy(r, 2.0, 6.0)
+    while te < end - 1:
+        if not any(a <= te <= b for a, b in quiet):
+            x += 1
+            tl.append([te, "edit", "a", {"spec": {"x": x}}])
+        te = _dy(r, te + 0.5, te + r.choice([3.0, 6.0, 12.0]))
+    sc = {k: v for k, v in base.items() if k in ("seed", "peering", "objects", "sticky_identities", "scope", "daemon_mode", "timer", "other_peerings")}
+    rule = {"who": who, "cls": cls, "nth": nth, "delay": delay}
+    if then is not None:
+        rule["then"] = then
+    sc.update({"ops": ops, "pre_status": ({"old-dead": {"priority": 500, "lifetime": 5, "lastseen": "2029-12-31T23:00:00+00:00"}}
+                                          if cls == "clean" and r.random() < 0.5 else None),
+               "response_latency": {}, "handler_delay": r.choice([0.0, 0.0, 0.5, 1.5]),
+               "timeline": sorted(tl, key=lambda e: e[0]), "delivery": {nm: r.choice([0, 0, 1 / 64, 4 / 64, 0.25]) for nm in names},
+               "end": end, "slow_requests": [rule]})
+    return sc
+
+
 # ---- oracle over one history --------------------------------------------------------------------
 class Hist:
     """Ground truth of one history: the peering status over time, who runs, who is paused."""
@@ -743,6 +849,10 @@ class Hist:
                 if in_call:
                     self.call_delay = max(self.call_delay, b - a)
         self.W += self.call_delay       # a call that retries a faulted request gives its verdict / re-evaluates that much later
+        # a slow request (`slow_requests` of the scenario: the environment) INSIDE a process_peering_event call - its clean(), its
+        # self-touch - holds that call, and the operator's next verdict, up by as much
+        self.slow = list(tr.get("slow_hits", []))
+        self.W += max([0.0] + [float(h["delay"]) for h in self.slow if h.get("in_call")])
         # pause function per incarnation
         self.pz: dict[int, list[tuple[float, bool]]] = {}
         self.made: dict[int, float] = {}
@@ -1092,9 +1202,40 @@ def oracle_history(ctx: Ctx, sc: dict, tr: dict, full: bool = False) -> dict:
                                     f"touched it back; the record outlives the operator (gone at {i['t_stopped']})",
                                     {"scenario": sc, "inc": i["inc"]},
                                     {"site": "peering.process_peering_event", "shape": "record re-added by a late self-touch after the withdrawal"})
+                elif back:
+                    fail(f"operator {i['name']} exited gracefully at {i['t_stopped']} but its record is still in the peering object: its "
+                         f"withdrawal (sent {own_w[k_none]['t_issue']}, applied {own_w[k_none]['t']}) was overtaken by a write of its own "
+                         f"record that it had sent earlier, at {back[0]['t_issue']}, and that arrived at {back[0]['t']} - after the "
+                         f"withdrawal: the record is back with lifetime {back[0]['patch'][i['identity']].get('lifetime')} s and outlives "
+                         f"the operator", "withdrawal: own record written back after the withdrawal of a graceful exit", inc=i["inc"])
                 else:
                     fail(f"operator {i['name']} exited gracefully at {i['t_stopped']} but its record is still in the peering object",
                          "withdrawal: record left behind by a graceful exit", inc=i["inc"])
+
+    # ---- (D2) "removes it on graceful exit" - FOR GOOD: once the graceful exit has completed, nothing the gone operator sent
+    # earlier puts a record back under its name (a renewal still on its way that arrives after the withdrawal - before or after
+    # the process has ended - makes the peers wait for an operator that is not there, for a whole lifetime). Judged on the
+    # peering object itself and on the fake API's write log (who wrote); not while the same identity runs again -----------------
+    for i in incs:
+        if i["t_stopped"] is None:
+            continue
+        again = [j["t_start"] for j in incs if j is not i and j["identity"] == i["identity"] and j["t_start"] >= i["t_stop_req"]]
+        t_hi = min(again + [H.t_end])
+        own_w = [w for w in tr.get("writes", []) if w["who"] == i["who"] and isinstance(w["patch"], dict) and i["identity"] in w["patch"]]
+        wd = [w for w in own_w if w["patch"][i["identity"]] is None and w["t"] >= i["t_stop_req"]]
+        if not wd:
+            continue            # (no withdrawal landed: clause D's business - refused by an injected fault, or left behind)
+        late = [w for w in own_w if w["patch"][i["identity"]] is not None and wd[0]["t"] <= w["t"] < t_hi
+                and (w["t"] > wd[0]["t"] or own_w.index(w) > own_w.index(wd[0]))]
+        stats["withdrawals_final"] = stats.get("withdrawals_final", 0) + 1
+        if late and not (late[0]["t"] <= i["t_stopped"] and i["identity"] in H.status_at(i["t_stopped"])[0]):
+            # (landed before the exit completed and still there at that moment: reported - and classified - by clause D)
+            w = late[0]
+            ctx.oracle_fail(f"operator {i['name']} withdrew its record (applied {wd[0]['t']}) and exited gracefully at {i['t_stopped']}; a write "
+                            f"of its own record that it had sent at {w['t_issue']} was applied at {w['t']}, AFTER the withdrawal: the record "
+                            f"({w['patch'][i['identity']]}) is back and outlives the operator",
+                            {"scenario": sc, "inc": i["inc"], "t": w["t"]},
+                            {"site": "peering", "shape": "withdrawal: own record written back after the withdrawal of a graceful exit"})
 
     # ---- (Y) FAIL-STOP completes: an operator one of whose guarded tasks has failed (a keep-alive or an observer's call whose API
     # request failed for good, whatever else) does not stay: the operator task ends - no half-alive operator, running without
@@ -1698,6 +1839,13 @@ def judge(sc: dict, tr: dict, full: bool = False) -> dict:
     stops = [g for g in tr.get("guard_failures", []) if any(h["inc"] == g["inc"] for h in tr.get("fault_hits", []))]
     if stops:
         col.count("history.api_faults", "fail-stop after a fault: " + stops[0]["task"].split(" for ")[0])
+    for f in sc.get("slow_requests") or []:
+        hit = [h for h in tr.get("slow_hits", []) if h["who"] == f.get("who") and h["cls"] == f.get("cls")]
+        th = f.get("then")
+        how = "no stop" if not th else (f"{th[0]} " + ("in flight" if float(th[1]) < float(f["delay"]) else "just after it arrived"))
+        col.count("history.slow_request", f"{f.get('cls')} #{f.get('nth', 1)}, {how}: {'fired' if hit else 'armed, not reached'}")
+        col.count("history.slow_request_delay", f["delay"])
+    col.count("history.slow_request", "histories with a slow request" if sc.get("slow_requests") else "histories without")
     if sc.get("churn"):
         col.count("history.churn", f"{len(sc['ops'])} operators, lifetime 2, delivery {max(sc['delivery'].values())}")
     col.count("history.events", ",".join(sorted({e[1] for e in sc["timeline"]})))
@@ -1736,7 +1884,8 @@ def judge(sc: dict, tr: dict, full: bool = False) -> dict:
     # ---- LTS-level ties: the write semantics (`Status.patch`) and the stale-view step (`deliverStale`) -----------------
     who_of = {i["inc"]: i["who"] for i in tr["incs"]}
     bound = 1 + sim_c13.ticks(max([0.0] + [float(x) for x in (sc.get("patch_latency") or {}).values()])) \
-        + sim_c13.ticks(max([0.0] + [float(x) for x in (sc.get("selftouch_latency") or {}).values()]))
+        + sim_c13.ticks(max([0.0] + [float(x) for x in (sc.get("selftouch_latency") or {}).values()])) \
+        + sim_c13.ticks(max([0.0] + [float(x.get("delay", 0)) for x in (sc.get("slow_requests") or [])]))
     wf_writes = []
     Hw = Hist(sc, tr)
     for w in tr.get("writes", []):
